@@ -369,3 +369,69 @@ Q(name="e2_token_from_header", props=["C14"], func=r"token\.rs[^>]*>::from_heade
       dict(retry=0, same_ip=1, same_port=1, age=5, lifetime=5, log_ok=1, corrupt=0),
       dict(retry=1, same_ip=1, same_port=1, age=1, lifetime=5, log_ok=1, corrupt=1),
       dict(retry=0, same_ip=1, same_port=1, age=1, lifetime=5, log_ok=1, corrupt=1)]))
+
+
+# ------------------------------------------------------------------ C15: datagrams from another address are ignored unless the peer may migrate
+def he_pre(c):
+    # Datagram events only (ConnectionEventInner::Datagram = 0)
+    return eq(c.inp("_2.0#discr", I64), bv(0))
+
+
+def he_post(c, p):
+    eqs = p.called(r"SocketAddr as PartialEq>::(eq|ne)")
+    mig = p.called(r"remote_may_migrate")
+    dec = p.called(r"handle_decode")
+    cids = p.called(r"new_cids")
+    if cids:
+        return "true"      # NewIdentifiers arm
+    if not eqs:
+        return "false"     # the source address must be compared before anything else happens
+    same = eqs[0][2] if eqs[0][0].endswith("eq") else not_(eqs[0][2])
+    conj = []
+    if mig:
+        # consulted only for a foreign address; a negative answer means: drop, touch nothing
+        conj.append(not_(same))
+        if dec:
+            conj.append(mig[0][2])
+        else:
+            k = "*_1.%d.%d" % (c.field("connection/mod.rs", "Connection", "path"), c.field("connection/paths.rs", "PathData", "total_recvd"))
+            conj.append(and_(not_(mig[0][2]), eq(p.out(k, BV64), c.inp(k, BV64))))
+    else:
+        conj.append(same)
+        conj.append("true" if dec else "false")
+    return and_(*conj)
+
+
+Q(name="e2_handle_event_remote_check", props=["C15"], func=r"connection/mod\.rs:245:1[^>]*>::handle_event$",
+  pure=[r"PartialEq>::(eq|ne)", r"remote_may_migrate", r"anti_amplification_blocked", r"BytesMut::len", r"PartialDecode::len"],
+  allowed_panics=r"attempt to compute", functions=["Connection::handle_event (Datagram arm)", "ConnectionSide::remote_may_migrate (opaque)"],
+  pre=he_pre, post=he_post,
+  bounds="every datagram event; SocketAddr comparison and remote_may_migrate are uninterpreted booleans (all four combinations); handle_decode / handle_coalesced opaque",
+  replay=("conn_handle_event_remote_check_native", lambda m: [
+      dict(server=0, migration=0, same_remote=0), dict(server=1, migration=0, same_remote=0),
+      dict(server=1, migration=1, same_remote=0), dict(server=0, migration=0, same_remote=1), dict(server=1, migration=0, same_remote=1)]))
+
+
+# ------------------------------------------------------------------ C07: the first Initial is credited exactly once
+def _conn_path_field(c, name):
+    return "*_1.%d.%d" % (c.field("connection/mod.rs", "Connection", "path"), c.field("connection/paths.rs", "PathData", name))
+
+
+def hfp_pre(c):
+    # `handle_first_packet` is only called on a connection in the Handshake state
+    return and_(eq(c.inp("*_1.%d#discr" % c.field("connection/mod.rs", "Connection", "state"), I64), bv(0)),
+                ult(c.inp("_6.1.1", BV64), bv(1 << 32)), ult(c.inp("_6.2.1", BV64), bv(1 << 32)))
+
+
+def hfp_post(c, p):
+    if p.p.outcome != "stop":
+        return "true"
+    got = p.out(_conn_path_field(c, "total_recvd"), BV64)
+    return eq(got, "(bvadd %s %s)" % (c.inp("_6.1.1", BV64), c.inp("_6.2.1", BV64)))
+
+
+Q(name="e2_first_packet_credit", props=["C07"], func=r"connection/mod\.rs:245:1[^>]*>::handle_first_packet$",
+  stop_at=[r"on_packet_authenticated"], check_stop=True, allowed_panics=r"attempt to compute",
+  functions=["Connection::handle_first_packet (up to on_packet_authenticated)"], pre=hfp_pre, post=hfp_post,
+  bounds="every header / payload length < 2^32: before any packet processing the anti-amplification credit of the new connection equals exactly the size of the first Initial packet (coalesced remainder is credited by handle_coalesced, outside this query)",
+  replay=("conn_first_packet_credit_native", lambda m: [dict(a=40, b=200, c=100), dict(a=40, b=200, c=0)]))
